@@ -7,6 +7,7 @@ scenario run) replayed on the implementation under the controlled scheduler, com
 sequences, outcomes and files — and an implementation-side search: random schedules with an oracle built from
 the implementation's OWN sequential runs of every order of the same calls."""
 import itertools
+import os
 import random
 
 import cf
@@ -14,7 +15,7 @@ import model
 import sched
 import seq
 import trace as tr
-from universe import Universe, Impl, token_line
+from universe import Universe, Impl, token_line, history_line
 
 READ_NOTFOUND = {"exn:ValueError", "exn:FileNotFoundError"}
 
@@ -565,6 +566,86 @@ def c16(run):
         finally:
             _FORK_HS = None
             shutil.rmtree(base, ignore_errors=True)
+    forked_sequential(run)
+
+
+def _fork_loop(conn, im):
+    """a persistent forked worker: executes the calls it is sent, one at a time, on the inherited store instance"""
+    while True:
+        c = conn.recv()
+        if c is None:
+            break
+        try:
+            conn.send(im.call(c))
+        except BaseException as e:  # noqa: BLE001
+            conn.send("exn:" + type(e).__name__)
+    os._exit(0)
+
+
+def forked_sequential(run):
+    """P-seq[fork]: one call history, its calls handed ONE AT A TIME to persistent forked worker processes chosen at random (mode
+    multiprocessing), against the same history in a single process in threading mode: same result of every call, same files.  Nothing
+    runs concurrently here - what differs is only WHICH PROCESS makes each call, so anything a process keeps to itself shows."""
+    import multiprocessing
+    import checks
+    rng = random.Random(run.seed + 16)
+    quick = run.tier == "quick"
+    hs_ = [[{"op": "so", "p": 1, "b": 7, "n": 1}, {"op": "so", "p": 2, "b": 7, "n": 1}, {"op": "ro", "p": 1}, {"op": "gh", "p": 1}, {"op": "del", "p": 1},
+            {"op": "so", "p": 1, "b": 8, "n": 1}, {"op": "ro", "p": 1}, {"op": "gh", "p": 1}, {"op": "del", "p": 1}, {"op": "ro", "p": 2}],
+           [{"op": "sm", "p": 1, "f": 0, "v": 1, "n": 1}, {"op": "rm", "p": 1, "f": 0}, {"op": "sm", "p": 1, "f": 0, "v": 2, "n": 1}, {"op": "rm", "p": 1, "f": 0},
+            {"op": "dm", "p": 1, "f": None}, {"op": "rm", "p": 1, "f": 0}]]
+    # which worker makes which call of the two fixed histories: one worker looks a pid up, the OTHER deletes and re-stores it, the first looks again
+    assign = [[0, 0, 0, 0, 1, 1, 0, 0, 0, 1], [0, 0, 1, 0, 1, 0]]
+    hs_ += checks.gen_histories(rng, "all", 0, 10 if quick else 80, 10)
+    for k, h in enumerate(hs_):
+        for c in h:
+            seq.decorate(rng, c) if "real" not in c and c["op"] in ("dii", "gh") else None
+        u = Universe()
+        for _ in range(2):
+            seq.prepare(u, h)
+        ps, fs = seq.ids_of(h)
+        ps, fs = sorted(set(ps) | {1, 2, 3}), sorted(set(fs) | {0, 1, 2})
+        want = seq.run_impl(u, [dict(c) for c in h], pids=ps, fmts=fs)
+        with _mp_env("True"):
+            im = Impl(u, ps, fs)
+        ctx = multiprocessing.get_context("fork")
+        workers = []
+        got = []
+        try:
+            for _ in range(2):
+                a, b = ctx.Pipe()
+                pr = ctx.Process(target=_fork_loop, args=(b, im), daemon=True)
+                pr.start()
+                workers.append((pr, a))
+            for i, c in enumerate(h):
+                w = assign[k][i] if k < 2 else rng.randrange(2)
+                pr, a = workers[w]
+                a.send(dict(c))
+                if a.poll(20):
+                    out = a.recv()
+                else:
+                    out = "exn:HANG"
+                got.append((out, im.state()))
+                if out == "exn:HANG":
+                    break
+        finally:
+            for pr, a in workers:
+                try:
+                    a.send(None)
+                except Exception:  # noqa: BLE001
+                    pass
+                pr.join(2)
+                if pr.is_alive():
+                    pr.kill()
+            im.close()
+        key = tuple(token_line(c) for c in h)
+        run.case("P-seq[fork]", key, nontrivial=True, sample={"projection": "P-seq[fork]", "history": list(key)[:8], "outcomes": [g[0] for g in got][:8]})
+        for i, (g, w_) in enumerate(zip(got, want)):
+            if g[0] != w_[0] or g[1] != w_[1]:
+                what = "call %d [%s] of [%s], made by a forked worker in multiprocessing mode, gives %s %s; in one process (threading mode) it gives %s %s" % (
+                    i, token_line(h[i]), " ; ".join(key[:i]), g[0], g[1], w_[0], w_[1])
+                run.violation({"kind": "fork-seq", "call": h[i]["op"]}, what, {"history": seq.strip(h), "line": history_line("states", h), "step": i, "mode": "forked workers"})
+                break
 
 
 CHECKS["C16"] = c16
